@@ -7,7 +7,10 @@
 //
 // Faults: every mutation ATTEMPT on the tracked file (SQL INSERT/UPDATE of its rows, WriteReader
 // begin / per-chunk read / EOF, Delete, the reconcile Exists probe) consumes the next letter of the
-// op's oracle: o = proceed, f = return an injected error without effect, c = CRASH: the world is
+// op's oracle: o = proceed, f = return an injected error without effect, r = (at a chunk of the
+// streaming copy) the SOURCE read fails: the hot backend's ReadTo returns an error after delivering
+// the chunks so far — possibly none — while the destination accepts what it received (elsewhere r = f),
+// c = CRASH: the world is
 // frozen (this and every later mutation through any wrapper returns a sentinel error and has no
 // effect), the harness then "restarts" by building fresh backends/DB/Manager over the same
 // directories and SQLite file.
@@ -55,8 +58,22 @@ import (
 
 var (
 	errInjected = errors.New("verif: injected step failure")
+	errSrcRead  = errors.New("verif: injected source read failure")
 	errCrashed  = errors.New("verif: process crashed (world frozen)")
 )
+
+// copyPlan: the fate of ONE streaming copy of the tracked file, fixed atomically by whichever side
+// (source ReadTo / destination WriteReader — they run in two goroutines) arrives first, so that the
+// oracle is consumed in a deterministic order: the `begin` letter, then one letter per chunk up to
+// the first non-ok one. kind: 'f' destination write fails at chunk `at`, 'r' the SOURCE read fails
+// instead of delivering chunk `at` (at-1 chunks were delivered; at=1: nothing), 'c' crash at chunk `at`.
+type copyPlan struct {
+	beginErr error
+	kind     byte
+	at       int
+	arrived  int
+	left     int
+}
 
 type ctl struct {
 	mu      sync.Mutex
@@ -65,7 +82,69 @@ type ctl struct {
 	orc     []byte
 	crashed bool
 	trace   []string
+	plans   map[string]*copyPlan
+	nChunks int    // chunks of the tracked file
+	srcFull string // its full path in the hot directory
 }
+
+func (c *ctl) letter(kind string) byte {
+	o := byte('o')
+	if len(c.orc) > 0 {
+		o, c.orc = c.orc[0], c.orc[1:]
+	}
+	c.trace = append(c.trace, kind+":"+string(o))
+	return o
+}
+
+func (c *ctl) plan(path string) *copyPlan {
+	c.mu.Lock()
+	defer c.mu.Unlock()
+	if c.plans == nil {
+		c.plans = map[string]*copyPlan{}
+	}
+	if p := c.plans[path]; p != nil {
+		p.arrived++
+		return p
+	}
+	p := &copyPlan{arrived: 1}
+	c.plans[path] = p
+	switch {
+	case c.crashed:
+		p.beginErr = errCrashed
+	case !c.armed || path != c.target:
+	default:
+		switch c.letter("begin") {
+		case 'f', 'r':
+			p.beginErr = errInjected
+		case 'c':
+			c.crashed = true
+			p.beginErr = errCrashed
+		default:
+			if _, err := os.Stat(c.srcFull); err == nil {
+				for j := 1; j <= c.nChunks; j++ {
+					if o := c.letter("chunk"); o != 'o' {
+						p.kind, p.at = o, j
+						break
+					}
+				}
+			}
+		}
+	}
+	return p
+}
+
+func (c *ctl) leave(path string) {
+	c.mu.Lock()
+	defer c.mu.Unlock()
+	if p := c.plans[path]; p != nil {
+		p.left++
+		if p.arrived >= 2 && p.left >= 2 {
+			delete(c.plans, path)
+		}
+	}
+}
+
+func (c *ctl) crashNow() { c.mu.Lock(); c.crashed = true; c.mu.Unlock() }
 
 var cur = &ctl{} // the fault driver is registered once; it consults the current controller
 
@@ -91,7 +170,7 @@ func (c *ctl) gate(kind, path string) error {
 	}
 	c.trace = append(c.trace, kind+":"+string(o))
 	switch o {
-	case 'f':
+	case 'f', 'r': // 'r' (source read failure) only differs from 'f' inside the streaming copy
 		return errInjected
 	case 'c':
 		c.crashed = true
@@ -105,7 +184,7 @@ func (c *ctl) frozen() bool { c.mu.Lock(); defer c.mu.Unlock(); return c.crashed
 func (c *ctl) arm(orc string) {
 	c.mu.Lock()
 	defer c.mu.Unlock()
-	c.armed, c.crashed, c.trace = true, false, nil
+	c.armed, c.crashed, c.trace, c.plans = true, false, nil, nil
 	if orc == "-" {
 		orc = ""
 	}
@@ -132,6 +211,8 @@ type freader struct {
 	r     io.Reader
 	path  string
 	chunk int
+	plan  *copyPlan
+	count int
 	pend  []byte
 	dead  error
 }
@@ -148,7 +229,18 @@ func (f *freader) Read(p []byte) (int, error) {
 	buf := make([]byte, f.chunk)
 	n, err := io.ReadFull(f.r, buf)
 	if n > 0 {
-		if e := cur.gate("chunk", f.path); e != nil {
+		f.count++
+		var e error
+		switch {
+		case cur.frozen():
+			e = errCrashed
+		case f.plan.kind == 'f' && f.count == f.plan.at:
+			e = errInjected
+		case f.plan.kind == 'c' && f.count == f.plan.at:
+			cur.crashNow()
+			e = errCrashed
+		}
+		if e != nil {
 			f.dead = e
 			return 0, e
 		}
@@ -170,10 +262,53 @@ func (f *freader) Read(p []byte) (int, error) {
 }
 
 func (b *fbackend) WriteReader(ctx context.Context, path string, r io.Reader, size int64) error {
-	if e := cur.gate("begin", path); e != nil {
-		return e
+	p := cur.plan(path)
+	defer cur.leave(path)
+	if p.beginErr != nil {
+		return p.beginErr
 	}
-	return b.LocalBackend.WriteReader(ctx, path, &freader{r: r, path: path, chunk: b.chunk}, size)
+	return b.LocalBackend.WriteReader(ctx, path, &freader{r: r, path: path, chunk: b.chunk, plan: p}, size)
+}
+
+// fwriter sits between the real LocalBackend.ReadTo of the SOURCE and the pipe: it forwards the
+// bytes in whole chunks and makes the source read fail where the plan says so.
+type fwriter struct {
+	w     io.Writer
+	chunk int
+	plan  *copyPlan
+	count int
+	buf   []byte
+}
+
+func (f *fwriter) emit(b []byte) error {
+	f.count++
+	if f.plan.kind == 'r' && f.count == f.plan.at {
+		return errSrcRead
+	}
+	_, err := f.w.Write(b)
+	return err
+}
+
+func (f *fwriter) Write(b []byte) (int, error) {
+	f.buf = append(f.buf, b...)
+	for len(f.buf) >= f.chunk {
+		if err := f.emit(f.buf[:f.chunk]); err != nil {
+			return 0, err
+		}
+		f.buf = f.buf[f.chunk:]
+	}
+	return len(b), nil
+}
+
+func (b *fbackend) ReadTo(ctx context.Context, path string, w io.Writer) error {
+	p := cur.plan(path)
+	defer cur.leave(path)
+	fw := &fwriter{w: w, chunk: b.chunk, plan: p}
+	err := b.LocalBackend.ReadTo(ctx, path, fw)
+	if err == nil && len(fw.buf) > 0 {
+		err = fw.emit(fw.buf)
+	}
+	return err
 }
 
 func (b *fbackend) Write(ctx context.Context, path string, data []byte) error {
@@ -395,6 +530,7 @@ func (w *world) newCase(ti int, sibHot, sibCold bool) {
 	meas = fmt.Sprintf("m%d", w.caseNo)
 	fRel = dbName + "/" + meas + "/2024/01/01/00/f_daily.parquet"
 	cur = &ctl{target: fRel}
+	defer func() { cur.nChunks, cur.srcFull = w.t.chunks, filepath.Join(w.hotDir, fRel) }()
 	if w.root == "" {
 		w.root = filepath.Join(w.base, "world")
 		w.hotDir, w.coldDir = filepath.Join(w.root, "hot"), filepath.Join(w.root, "cold")
@@ -607,7 +743,7 @@ func (w *world) runHistory(ti int, sibHot, sibCold bool, ops []opn) {
 	}
 	emit(fmt.Sprintf("new %d %d %d", w.t.chunks, b(sibHot), b(sibCold)), "ok")
 	replay := func() string {
-		return canon.String() + fmt.Sprintf("# file=%s size=%dB chunk=%dB; hot=%s cold=%s; oracle letters: one per mutation attempt on the file (o ok, f injected error, c crash+restart)",
+		return canon.String() + fmt.Sprintf("# file=%s size=%dB chunk=%dB; hot=%s cold=%s; oracle letters: one per mutation attempt on the file (o ok, f injected error, r source read of the copy fails, c crash+restart)",
 			fRel, len(w.t.bytes), w.chunk, "LocalBackend(hot/)", "LocalBackend(cold/)")
 	}
 	check := func(last *opn, lastRes string) {
@@ -754,7 +890,10 @@ func main() {
 	gi := 0
 	for ti, t := range w.tmpls {
 		for k := 0; k < nEv(t); k++ {
-			for _, x := range []byte{'c', 'f'} {
+			for _, x := range []byte{'c', 'f', 'r'} {
+				if x == 'r' && (k < 2 || k >= 2+t.chunks) {
+					continue // a source read failure exists only at the chunk positions (k-2 chunks delivered, incl. 0)
+				}
 				for fi, fo := range follow {
 					for si, sb := range sibs {
 						gi++
@@ -775,7 +914,7 @@ func main() {
 		L := nEv(t) + 1
 		for i := 0; i < L; i++ {
 			for j := i + 1; j < L; j++ {
-				for _, xy := range []string{"ff", "fc"} {
+				for _, xy := range []string{"ff", "fc", "rf", "rc"} {
 					gi++
 					if !c.Thorough() && gi%2 != int(c.Seed%2) {
 						continue
@@ -794,6 +933,9 @@ func main() {
 		t := w.tmpls[0]
 		for k := 0; k < nEv(t); k++ {
 			firsts = append(firsts, single(k, 'c'), single(k, 'f'))
+			if k >= 2 && k < 2+t.chunks {
+				firsts = append(firsts, single(k, 'r'))
+			}
 		}
 		for _, f1 := range firsts {
 			for _, k2 := range []string{"rec", "mig", "scan", "cycle"} {
@@ -835,8 +977,10 @@ func main() {
 				switch x := r.Intn(100); {
 				case x < 78:
 					o[q] = 'o'
-				case x < 92:
+				case x < 87:
 					o[q] = 'f'
+				case x < 93:
+					o[q] = 'r'
 				default:
 					o[q] = 'c'
 				}
@@ -855,6 +999,6 @@ func main() {
 	w.closeManager()
 	c.Extra["time"] = fmt.Sprintf("newCase=%v ops=%v observe=%v (duckdb=%v)", tNew.Round(time.Millisecond), tOp.Round(time.Millisecond), tObs.Round(time.Millisecond), tDuck.Round(time.Millisecond))
 	c.Finish("cases = (file size, sibling tiers of the measurement, history of mig/rec/scan/cycle ops each with a fault oracle) — " +
-		"every crash point and every single step failure of MigrateFile for each file size × follow-up (reconcile, retry, reconcile+retry, full cycle, scan+reconcile), " +
+		"every crash point, every single step failure and every source-read failure position (after 0..n-1 chunks) of MigrateFile for each file size × follow-up (reconcile, retry, reconcile+retry, full cycle, scan+reconcile), " +
 		"all two-fault oracles for the small file, faults inside the follow-up, and random histories; non-trivial = at least one injected failure/crash was consumed; distinct = distinct op text")
 }
